@@ -30,6 +30,10 @@ type Relay struct {
 	mutex     stdsync.RWMutex
 	consumers []subscription
 
+	// cacheMutex serializes cache insertions of concurrent Put calls, which
+	// only hold the read lock of mutex. All other cache accesses hold the
+	// write lock of mutex.
+	cacheMutex        stdsync.Mutex
 	cache             Cache
 	defaultMsgHandler func(*Envelope) // Handles messages with no subscriber.
 }
@@ -144,7 +148,11 @@ func (p *Relay) Put(e *Envelope) {
 	}
 
 	if !found {
-		if !p.cache.Put(e) {
+		p.cacheMutex.Lock()
+		cached := p.cache.Put(e)
+		p.cacheMutex.Unlock()
+
+		if !cached {
 			p.defaultMsgHandler(e)
 		}
 	}
